@@ -210,6 +210,13 @@ impl Router {
     ) {
         let routes = std::mem::take(&mut self.routes);
         for (route, handlers_meta) in &routes {
+            assert!(
+                route.n_params() <= crate::request::Path::PARAMS_LIMIT,
+                "route `{}` captures {} path params \
+                BUT ohkami handles at most {} path params in a route",
+                route.literal(), route.n_params(),
+                crate::request::Path::PARAMS_LIMIT
+            );
             for (_method, handler_meta) in handlers_meta.iter() {
                 assert!(
                     handler_meta.n_params <= route.n_params(),
